@@ -2,6 +2,7 @@
 #define LIBXMP_EXTRAS_H
 
 void libxmp_release_module_extras(struct context_data *);
+void libxmp_reset_module_extras(struct context_data *);
 int  libxmp_new_channel_extras(struct context_data *, struct channel_data *);
 void libxmp_release_channel_extras(struct context_data *, struct channel_data *);
 void libxmp_reset_channel_extras(struct context_data *, struct channel_data *);
